@@ -36,6 +36,27 @@ func firstLevelUpToDate(levels []pcs.TcbLevel, svn uint32) bool {
 	return vp.And(found, ok)
 }
 
+// spec07: the statement, byte-wise (MISCSELECT is a little-endian 32-bit field of the report).
+func spec07(report *pb.EnclaveReport, id *pcs.EnclaveIdentity) bool {
+	ms, mm := id.Miscselect.Bytes, id.MiscselectMask.Bytes
+	want := vp.And(len(ms) == 4, len(mm) == 4)
+	if len(ms) == 4 && len(mm) == 4 {
+		for i := 0; i < 4; i++ {
+			rb := byte(report.MiscSelect >> (8 * uint(i)))
+			want = vp.And(want, rb&mm[i] == ms[i])
+		}
+	}
+	at, am := id.Attributes.Bytes, id.AttributesMask.Bytes
+	want = vp.And(want, len(am) == 16, len(at) == 16)
+	if len(am) == 16 && len(at) == 16 {
+		for i := 0; i < 16; i++ {
+			want = vp.And(want, report.Attributes[i]&am[i] == at[i])
+		}
+	}
+	return vp.And(want, vp.BytesEq(id.Mrsigner.Bytes, report.MrSigner), report.IsvProdId == uint32(id.IsvProdID),
+		firstLevelUpToDate(id.TcbLevels, report.IsvSvn))
+}
+
 func h07(k int) {
 	report := &pb.EnclaveReport{
 		MiscSelect: vp.U32("r_miscselect"),
@@ -55,24 +76,7 @@ func h07(k int) {
 	}
 	err := verifyQeReport(report, &qeReportOptions{qeIdentity: id})
 
-	// the statement, byte-wise (MISCSELECT is a little-endian 32-bit field of the report)
-	ms, mm := id.Miscselect.Bytes, id.MiscselectMask.Bytes
-	want := vp.And(len(ms) == 4, len(mm) == 4)
-	if len(ms) == 4 && len(mm) == 4 {
-		for i := 0; i < 4; i++ {
-			rb := byte(report.MiscSelect >> (8 * uint(i)))
-			want = vp.And(want, rb&mm[i] == ms[i])
-		}
-	}
-	at, am := id.Attributes.Bytes, id.AttributesMask.Bytes
-	want = vp.And(want, len(am) == 16, len(at) == 16)
-	if len(am) == 16 && len(at) == 16 {
-		for i := 0; i < 16; i++ {
-			want = vp.And(want, report.Attributes[i]&am[i] == at[i])
-		}
-	}
-	want = vp.And(want, vp.BytesEq(id.Mrsigner.Bytes, report.MrSigner), report.IsvProdId == uint32(id.IsvProdID),
-		firstLevelUpToDate(id.TcbLevels, report.IsvSvn))
+	want := spec07(report, id)
 	if k > 0 {
 		vp.Reach("accept", err == nil)
 	}
